@@ -46,11 +46,11 @@ POS_TOL = 1e-9
 def plan(tier, seed):
     if tier == "quick":
         kinds = {"cart1": 500, "cart2": 900, "cart3": 350, "corner": 400, "polar": 200,
-                 "sph": 200, "cyl": 450}
+                 "sph": 200, "cyl": 450, "empty": 150}
         per = 200
     else:
         kinds = {"cart1": 20000, "cart2": 40000, "cart3": 12000, "corner": 20000,
-                 "polar": 6000, "sph": 6000, "cyl": 20000}
+                 "polar": 6000, "sph": 6000, "cyl": 20000, "empty": 4000}
         per = 2500
     return common.shards(kinds, per_shard=per, tier=tier, seed=seed)
 
@@ -76,6 +76,16 @@ def gen(rng, kind, tier):
 
 
 def _gen_once(rng, kind, tier):
+    if kind == "empty":
+        # no originals: no droplets, whatever the threshold rule (a rendered empty emulsion is a constant field)
+        fam = str(rng.choice(["cart", "cart", "polar", "sph", "cyl"]))
+        if fam == "cart":
+            spec = geom.rand_cart_spec(rng, int(rng.integers(1, 4)), nmin=3, nmax=10)
+        elif fam == "cyl":
+            spec = geom.rand_cyl_spec(rng, nmin=3, nmax=10)
+        else:
+            spec = geom.rand_sym_spec(rng, fam, nmin=3, nmax=12)
+        return {"grid": spec, "droplets": [], "threshold": str(rng.choice(["0.5", "auto", "extrema", "mean"]))}
     if kind in ("cart1", "cart2", "cart3", "corner"):
         dim = {"cart1": 1, "cart2": 2, "cart3": 3}.get(kind) or int(rng.integers(2, 4))
         big = tier == "thorough" and rng.random() < 0.15
@@ -105,9 +115,28 @@ def _gen_once(rng, kind, tier):
         k = int(rng.integers(1, 5)) if kind != "corner" else int(rng.integers(1, 3))
         centers, radii = [], []
         periods = geom.cart_periodicity(spec)
+        satellites = kind != "corner" and k >= 2 and rng.random() < 0.3
         for _i in range(k):
+            if satellites and centers:
+                # small satellites just beyond the required gap from a big droplet (strongly polydisperse emulsion)
+                placed = False
+                for _try in range(30):
+                    Rs = float(rng.uniform(rmin, min(rmax, 1.5 * rmin)))
+                    u = rng.normal(0, 1, dim)
+                    u /= np.linalg.norm(u)
+                    c = centers[0] + u * (radii[0] + Rs + (3 * hn + 2 * hmax) * 1.03)
+                    inside = all(spec["periodic"][a] or (b[a, 0] + Rs * 1.000001 <= c[a] <= b[a, 1] - Rs * 1.000001) for a in range(dim))
+                    if inside and _gap_ok(centers + [c], radii + [Rs], periods, 3 * hn + 2 * hmax):
+                        centers.append(c)
+                        radii.append(Rs)
+                        placed = True
+                        break
+                if placed:
+                    continue
             for _try in range(30):
-                if kind == "corner" or rng.random() < 0.25:
+                if satellites and not centers:
+                    R = float(rng.uniform(0.6 * rmax, rmax)) if 0.6 * rmax > rmin else float(rng.uniform(rmin, rmax))
+                elif kind == "corner" or rng.random() < 0.25:
                     R = float(rng.uniform(rmin, min(rmax, 1.8 * hn)))
                 else:
                     R = float(rng.uniform(rmin, min(rmax, rmin + rng.uniform(0.2, 1.0) * (rmax - rmin))))
@@ -217,6 +246,19 @@ def run(case, rec):
         return
 
     em = droplets.Emulsion([droplets.SphericalDroplet(t["c"], t["R"]) for t in truth])
+    if not truth:
+        call = common.monitored(rec, "Emulsion.get_phasefield", em.get_phasefield, grid)
+        if rec.check(call.ok, "no-exception", f"get_phasefield of an empty emulsion raised {call.exc!r}"):
+            thr = case.get("threshold", "0.5")
+            c2 = common.monitored(rec, "locate_droplets", droplets.locate_droplets, call.result,
+                                  threshold=float(thr) if thr[0].isdigit() else thr)
+            if rec.check(c2.ok, "no-exception", f"locate_droplets raised {c2.exc!r} on the render of an empty emulsion (threshold {thr})"):
+                rec.check(len(c2.result) == 0, "count",
+                          f"0 originals rendered, {len(c2.result)} droplets located with threshold={thr}: "
+                          f"{[(list(map(float, d.position)), d.radius) for d in c2.result]}")
+        rec.evaluated(nontrivial=False)
+        rec.count("empty_emulsions")
+        return
     call = common.monitored(rec, "Emulsion.get_phasefield", em.get_phasefield, grid)
     if not rec.check(call.ok, "no-exception", f"get_phasefield raised {call.exc!r}"):
         return
